@@ -53,9 +53,11 @@ func lastStringConst(st *State, v AV, depth int) string {
 	return ""
 }
 
-func (r *rwRT) ruleScopeAgree(seqForHolds bool) {
+func (r *rwRT) ruleScopeAgree(seqForHolds bool, mode string) {
 	c := r.c
-	c.min("RW.SCOPEAGREE", 3)
+	if mode == "agree" {
+		c.min("RW.SCOPEAGREE", 3)
+	}
 	fn := r.method("yieldRewriter", "rewriteStmt")
 	pos := r.w.FnPos(fn)
 	if !seqForHolds {
@@ -96,6 +98,9 @@ func (r *rwRT) ruleScopeAgree(seqForHolds bool) {
 	}
 	// (a) break targets lowered with thunks inside
 	for _, kind := range []string{"ForStmt", "SwitchStmt", "TypeSwitchStmt"} {
+		if mode != "agree" {
+			break
+		}
 		yielding, rootedOK := 0, 0
 		example := ""
 		for _, p := range runShape(kind, func(string) bool { return true }) {
@@ -153,7 +158,7 @@ func (r *rwRT) ruleScopeAgree(seqForHolds bool) {
 			fmt.Sprintf("%d of %d yielding lowering paths are rooted at %q, which does not absorb the Break signal: a `break` placed after a yield inside it (rewritten to seq.Break() by the branch pass, because it sits in a Bind thunk) leaves the enclosing loop instead of the %s", yielding-rootedOK, yielding, example, strings.TrimSuffix(kind, "Stmt")))
 	}
 	// (b) yielding for-post must run on Continue
-	postBad, postPaths := 0, 0
+	postBad, postPaths, postShared := 0, 0, 0
 	where := ""
 	for _, p := range runShape("ForStmt", func(d string) bool { return strings.Contains(d, "post=true") }) {
 		isYieldPost := false
@@ -202,6 +207,20 @@ func (r *rwRT) ruleScopeAgree(seqForHolds bool) {
 			postBad++
 			where = "(post statement not lowered through the recursion)"
 		}
+		// S5: the lowered post must get a block of its own (not the body's block)
+		for _, pb := range postBlocks {
+			if strings.HasPrefix(pb, "ret:") {
+				postShared++
+			}
+		}
+	}
+	if postPaths > 0 && mode == "forpost" {
+		c.check(postShared == 0, "RW.TMPL.FORPOST", "yielding for-post is lowered into a scope of its own", pos,
+			fmt.Sprintf("%d yielding-post paths lower the post statement into a fresh block", postPaths),
+			fmt.Sprintf("%d of %d yielding-post paths append the lowered post statement to the body's own block: the post expression resolves names against variables declared in the loop body (`for ; c; Yield(a) { a := ...; n++ }` yields the body's a)", postShared, postPaths))
+	}
+	if mode != "agree" {
+		return
 	}
 	if postPaths == 0 {
 		c.und("RW.SCOPEAGREE", "yielding for-post lowering", pos, "no path with a yielding post statement found")
